@@ -89,10 +89,21 @@ def r1_worklist_growth(chk, rule='C08.R1'):
                         good = True
             if not good:
                 detail = '%s is not the MibInfo returned by the symbol-table pass of this iteration' % mi
-        # must be unconditional within the per-module loop body
+        # must sit in the same block as the symbol-table pass that produced this MibInfo (once per parsed module)
         par = getattr(st, '_parent', None)
-        if good and not isinstance(par, (ast.For, ast.Try)):
-            good, detail = False, 'work list growth is conditional (under %s)' % type(par).__name__
+        if good:
+            from rules.C07 import block_of
+            blk = block_of(st)
+            same = False
+            for c in r.calls.get('genCode', []):
+                cst = cr.stmt_of(c, r.fn)
+                if isinstance(cst, ast.Assign) and isinstance(cst.targets[0], ast.Tuple) and \
+                        _key_is(cst.targets[0].elts[0], src.value.id) and any(cst is x for x in blk):
+                    same = True
+            if not same:
+                good, detail = False, 'the imports are queued outside the per-module block of the symbol-table pass ' \
+                                      '(under %s): when a source holds several modules only some of them have ' \
+                                      'their imports followed' % type(par).__name__
         chk.ob(rule, 'compile/worklist-extend(%s)' % norm(arg)[:40], good, where(r.mod, g), '' if good else detail)
 
     # --- symbol table pass: imported = all keys of the IMPORTS mapping ------------------------------
